@@ -18,9 +18,12 @@ from checks import xcore_common as xc
 SPECDIR = xc.SPECDIR
 TRACE = os.path.join(SPECDIR, "TtlMapTrace.tla")
 TRACE_CFG = os.path.join(SPECDIR, "TtlMapTrace.cfg")
-DEVS = {"Dev_HitAtExpiry": ("HitOk", "main"), "Dev_RefreshKeepsExpiry": ("RefreshToFront", "main"), "Dev_GetSlidesExpiry": ("HitOk", "main"),
-        "Dev_NoMoveToFront": ("JustPutPresent", "main"), "Dev_EvictFront": ("JustPutPresent", "main"), "Dev_NoSecondChance": ("Eviction", "lru"),
-        "Dev_NoEviction": ("SizeBound", "main"), "Dev_SweepReapsLive": ("SweepExact", "main"), "Dev_GetNoStamp": ("HitStamps", "lru"), "Dev_RecentBoundary": ("Eviction", "lru")}
+# deviation flag -> (invariants one of which TLC must report - which one comes first depends on the search order -, configuration)
+DEVS = {"Dev_HitAtExpiry": (("HitOk",), "main"), "Dev_RefreshKeepsExpiry": (("RefreshToFront", "MissOk", "HitOk"), "main"),
+        "Dev_GetSlidesExpiry": (("HitOk", "MissOk"), "main"), "Dev_NoMoveToFront": (("JustPutPresent", "Eviction"), "main"),
+        "Dev_EvictFront": (("JustPutPresent", "Eviction", "MissOk"), "main"), "Dev_NoSecondChance": (("Eviction",), "lru"),
+        "Dev_NoEviction": (("SizeBound",), "main"), "Dev_SweepReapsLive": (("SweepExact", "MissOk"), "main"),
+        "Dev_GetNoStamp": (("HitStamps", "Eviction"), "lru"), "Dev_RecentBoundary": (("Eviction",), "lru")}
 INVS = ["HitOk", "MissOk", "SizeBound", "JustPutPresent", "Eviction", "NoNeedlessEviction", "RefreshToFront", "SweepExact", "StatsOk", "HitStamps"]
 ACTIONS = ["Put", "Get", "Invalidate", "Clear", "Stats", "Advance", "Sweep"]
 CFGS = {"main": dict(Keys={1, 2, 3}, Ttls={0, 1, 3}, Advances={1, 2}, MaxEntries=2, DefaultTtl=2, SweepInterval=2, MaxTime=6),
@@ -105,7 +108,7 @@ def run(ck):
         jobs["sim_" + name] = dict(module_path=t, cfg_path=c, workers=1, simulate="num=%d" % num, depth=4 * ops, seed=ck.seed)
     for d, (inv, cfgname) in DEVS.items():
         t, c = xc.write_mc(ck, "MC_" + d, "TtlMap", consts(cfgname, 6 if cfgname == "lru" else 5, devs=[d]), INVS, view="View")
-        jobs[d] = dict(module_path=t, cfg_path=c, workers=2, dump_trace=os.path.join(ck.work, d + ".json"))
+        jobs[d] = dict(module_path=t, cfg_path=c, workers=1, dump_trace=os.path.join(ck.work, d + ".json"))
     res = xc.tlc_many(jobs, max_parallel=6)
     for k in ("mc", "mc_lru", "mc_zero", "mc_one", "gen"):
         r = res[k]
@@ -120,8 +123,8 @@ def run(ck):
     xc.require_actions(ck, res["mc"], ACTIONS, "TtlMap.tla")
     ck.exhaustive = True
     for d, (inv, cfgname) in DEVS.items():
-        if res[d].violated != inv:
-            raise vf.Infra("self-test: TtlMap.tla with %s should violate %s, got %r %s" % (d, inv, res[d].violated, (res[d].error or "")[-400:]))
+        if res[d].violated not in inv:
+            raise vf.Infra("self-test: TtlMap.tla with %s should violate one of %s, got %r %s" % (d, inv, res[d].violated, (res[d].error or "")[-400:]))
     ck.note("self-test: %d deviation flags each violate their invariant" % len(DEVS))
     # ---------------------------------------------------------------- operation sequences -> the real map
     lines, kinds = [], []
